@@ -26,9 +26,11 @@ def _sqd(L, xi, xj, k, d):
 def _softmax(ctx, L, X, n, k, d):
   E = [[None] * n for _ in range(n)]
   for i in range(n):
+    # concrete mode: shift by the row minimum (mathematically the same softmax, numerically stable)
+    shift = 0.0 if ctx.symbolic else min(float(_sqd(L, X[i], X[j], k, d)) for j in range(n) if j != i)
     for j in range(n):
       if i != j:
-        E[i][j] = _exp(ctx, -_sqd(L, X[i], X[j], k, d))
+        E[i][j] = _exp(ctx, -(_sqd(L, X[i], X[j], k, d) - shift) if not ctx.symbolic else -_sqd(L, X[i], X[j], k, d))
   S = [sum(E[i][j] for j in range(n) if j != i) for i in range(n)]
   return [[(E[i][j] / S[i]) if i != j else 0.0 for j in range(n)] for i in range(n)]
 
@@ -71,7 +73,7 @@ def nca_case(n, d, k):
         emb = Xf @ Lx.T
         D = ((emb[:, None, :] - emb[None, :, :]) ** 2).sum(-1)
         np.fill_diagonal(D, np.inf)
-        P = np.exp(-D)
+        P = np.exp(-(D - D.min(1, keepdims=True)))
         P /= P.sum(1, keepdims=True)
         return (P * mask).sum()
       h = 1e-6
@@ -116,7 +118,7 @@ def mlkr_case(n, d, k):
         emb = Xf @ Lx.T
         D = ((emb[:, None, :] - emb[None, :, :]) ** 2).sum(-1)
         np.fill_diagonal(D, np.inf)
-        P = np.exp(-D)
+        P = np.exp(-(D - D.min(1, keepdims=True)))
         P /= P.sum(1, keepdims=True)
         return ((P @ yf - yf) ** 2).sum()
       h = 1e-6
@@ -292,10 +294,10 @@ def cases(tier, seed):
   for n, d, k, tiers in ((3, 1, 1, Q), (3, 2, 1, Q), (3, 2, 2, Q), (4, 2, 1, T), (4, 2, 2, T)):
     out.append(case('nca_n%d_d%d_k%d' % (n, d, k), nca_case(n, d, k), FUNCS,
                     '%d arbitrary points in R^%d, every label partition into <= 2 classes, L arbitrary %dx%d, sign in {+1,-1}' % (n, d, k, d),
-                    tiers=tiers, cost=20 * n * k, proof_timeout_ms=120000, validate=6, max_paths=10000, hard_timeout_s=3000))
+                    tiers=tiers, cost=20 * n * k, proof_timeout_ms=120000, validate=6, max_paths=10000, hard_timeout_s=3000, scale=0.5))
     out.append(case('mlkr_n%d_d%d_k%d' % (n, d, k), mlkr_case(n, d, k), FUNCS,
                     '%d arbitrary points in R^%d with arbitrary real targets, L arbitrary %dx%d' % (n, d, k, d),
-                    tiers=tiers, cost=20 * n * k, proof_timeout_ms=120000, validate=6, hard_timeout_s=3000))
+                    tiers=tiers, cost=20 * n * k, proof_timeout_ms=120000, validate=6, hard_timeout_s=3000, scale=0.5))
   for w in ('NCA', 'MLKR'):
     out.append(case('fit_callsite_%s' % w, fit_callsite_case(w), FUNCS,
                     '%s.fit with the optimiser replaced by a recorder: 4 arbitrary points, arbitrary array init, arbitrary optimiser answer, max_iter 0..3' % w,
